@@ -24,5 +24,6 @@ def run(F, rep):
     # the pruning the graph route relies on before it walks (a pruned real link hides a branch)
     rep.run(dt_graph.get_valid_exts_table, F, rep, "C02.4")
     rep.run(dt_graph.fix_exts_table, F, rep, "C02.4")
+    rep.run(dt_graph.censor_tables, F, rep, "C02.4")
     rep.run(common.run_kmer_lemmas, F, rep, {"canon"})
     rep.run(lemmas.exts_lemmas, F, rep)
